@@ -6,10 +6,10 @@ PROPS = {}
 
 def keys_for(reg, pid):
     """All contracts that are verified (functions under contract and lemmas) for this property."""
-    out = []
+    out = set(PROPS.get(pid, {}).get("roots", []))
     for k, c in reg.contracts.items():
         if pid in c.properties and (c.is_lemma or (c.status == "verify" and not c.inline)):
-            out.append(k)
+            out.add(k)
     return sorted(out)
 
 
@@ -27,4 +27,5 @@ prop("C12", level="proof",
                 "relation, the string-level meaning of name_anc/glob2regex (proved separately at string level), pyvc itself. "
                 "Partial correctness (termination of the worklist loops is not proved).",
      explanation="Rule algebra laws as lemmas over the contracts of the verdict pipeline.",
+     roots=["Rule.assert_applies"],
      trusted_base=_TB)
